@@ -12,6 +12,8 @@ Require Import Zrs.proofs.C04_Run Zrs.proofs.C06_Drain Zrs.proofs.C05_Block Zrs.
 Require Import Zrs.model.FseDec Zrs.gen.Generated Zrs.model.BitIO Zrs.model.BitRev64 Zrs.proofs.C03_BitRev64.
 Require Import Zrs.model.FseDec Zrs.model.HufDec Zrs.proofs.C03_Desc Zrs.proofs.C03_HufTable.
 Require Import Zrs.model.FseEnc Zrs.proofs.C03_HufComplete Zrs.proofs.C03_HufStream Zrs.proofs.C03_FseStates.
+Require Import Zrs.model.Headers Zrs.model.FrameDec Zrs.proofs.C11_Reset Zrs.proofs.C03_FseBuild Zrs.proofs.C03_HufBuild Zrs.proofs.C03_Literals Zrs.proofs.C03_Sequences
+               Zrs.proofs.C03_Exec Zrs.proofs.C03_BlockTotal Zrs.proofs.C03_FrameTotal.
 Open Scope Z_scope.
 
 Theorem C03_window_never_faults : forall k ops, (1 <= k)%nat -> Forall op_contract ops -> forall s, Inv s ->
@@ -85,6 +87,109 @@ Theorem C03_fse_states_never_leave_the_table : forall al probs ms,
        exists st' br', fse_update_state D st br = ROk (st', br') /\ In st' (t_decode D) /\ rwf br').
 Proof. exact built_table_states_stay_inside. Qed.
 
+
+(** *** the block and frame layers never panic (the headline of the property on the model)
+
+    [scratch_sound]: the condition the decoder keeps its scratch space in -- decode buffer well formed, offset history three
+    non-negative entries, Huffman table unset or complete, each FSE table unset or built from a normalised distribution
+    (every entry keeps every transition inside the table and carries a symbol of the alphabet).  [dict_sound]: the same
+    for the tables of a dictionary.  Both are established by the constructors and the dictionary parser (below) and
+    preserved by every successful operation, so they quantify over nothing the decoder cannot reach. *)
+
+(** a table built from ANY serialized description is sound, and the reader never consumes more than it was given *)
+Theorem C03_fse_table_from_any_bytes : forall t source max_log, t_max_symbol t <= 255 -> max_log <= 9 ->
+  match fse_build_decoder t source max_log with
+  | ROk (D, bytes) => fse_good D /\ fse_range D /\ t_max_symbol D = t_max_symbol t /\ 0 <= bytes <= Z.of_nat (length source)
+  | RErr _ => True
+  | RPanic _ => False
+  end.
+Proof. exact fse_build_decoder_good. Qed.
+
+(** a Huffman table built from ANY bytes (direct or FSE-compressed weights) is complete *)
+Theorem C03_huffman_table_from_any_bytes : forall t source, t_max_symbol (ht_fse t) = 255 -> Forall (fun b => 0 <= b) source ->
+  match huf_build_decoder t source with
+  | ROk (t', bytes) => huf_complete t' /\ huf_good t' /\ 0 <= bytes <= Z.of_nat (length source)
+  | RErr _ => True
+  | RPanic _ => False
+  end.
+Proof. exact huf_build_decoder_good. Qed.
+
+(** the literals section: exactly the announced literals, exactly the announced bytes, or an error *)
+Theorem C03_literals_section_never_panics : forall sec ht source,
+  sec_ok sec -> huf_good ht -> bytes_ok source = true -> zlen source = sec_upper sec ->
+  match decode_literals sec ht source with
+  | ROk (ht', lits, used) => huf_good ht' /\ zlen lits = ls_regen sec /\ used = zlen source
+  | RErr _ => True
+  | RPanic _ => False
+  end.
+Proof. exact decode_literals_ok. Qed.
+
+(** the sequences section, any number of sequences, any compression modes *)
+Theorem C03_sequences_section_never_panics : forall n modes source s, bytes_ok source = true -> fscratch_ok s ->
+  match decode_sequences n modes source s with
+  | ROk (s', seqs) => fscratch_ok s' /\ Forall seq_ok seqs
+  | RErr _ => True
+  | RPanic _ => False
+  end.
+Proof. exact decode_sequences_never_panics. Qed.
+
+(** sequence execution, any dictionary content *)
+Theorem C03_sequence_execution_never_panics : forall seqs lits buf hist, db_wf buf -> hist_ok hist -> Forall seq_ok seqs ->
+  match execute_sequences seqs lits buf hist with
+  | ROk (buf', hist') => db_wf buf' /\ hist_ok hist'
+  | RErr _ => True
+  | RPanic _ => False
+  end.
+Proof. exact execute_sequences_never_panics. Qed.
+
+(** one compressed block: EVERY byte string as block content *)
+Theorem C03_compressed_block_never_panics : forall sc raw, scratch_sound sc -> bytes_ok raw = true ->
+  match decompress_block (zlen raw) sc raw with
+  | ROk sc' => scratch_sound sc'
+  | RErr _ => True
+  | RPanic _ => False
+  end.
+Proof. exact decompress_block_never_panics. Qed.
+
+(** the block loop of a frame: EVERY byte string as the rest of the frame, every stopping strategy *)
+Theorem C03_decode_blocks_never_panics : forall d src strat, dec_sound d -> bytes_ok src = true ->
+  match fdec_decode_blocks d src strat with
+  | ROk (d', rest, fin) => dec_sound d'
+  | RErr _ => True
+  | RPanic _ => False
+  end.
+Proof. exact fdec_decode_blocks_never_panics. Qed.
+
+(** initialisation / reset on EVERY byte string *)
+Theorem C03_reset_never_panics : forall d src, dec_sound d ->
+  match fdec_reset d src with
+  | ROk (d', rest, evs) => dec_sound d'
+  | RErr _ => True
+  | RPanic _ => False
+  end.
+Proof. exact fdec_reset_never_panics. Qed.
+
+(** the dictionary parser on EVERY byte string; what it returns is sound *)
+Theorem C03_dictionary_parser_never_panics : forall raw, bytes_ok raw = true ->
+  match decode_dict raw with ROk dd => dict_sound dd | RErr _ => True | RPanic _ => False end.
+Proof. exact decode_dict_never_panics. Qed.
+
+(** the soundness condition is reachable and kept: a new decoder has it, adding a parsed dictionary and forcing one keep it *)
+Theorem C03_sound_decoders_exist : dec_sound fdec_new /\
+  (forall d dd, dec_sound d -> dict_sound dd -> dec_sound (fdec_add_dict d dd)) /\
+  (forall d id, dec_sound d -> match fdec_force_dict d id with ROk d' => dec_sound d' | RErr _ => True | RPanic _ => False end).
+Proof. split; [exact fdec_new_sound|]. split; [exact fdec_add_dict_sound|exact fdec_force_dict_sound]. Qed.
+
+Print Assumptions C03_fse_table_from_any_bytes.
+Print Assumptions C03_huffman_table_from_any_bytes.
+Print Assumptions C03_literals_section_never_panics.
+Print Assumptions C03_sequences_section_never_panics.
+Print Assumptions C03_sequence_execution_never_panics.
+Print Assumptions C03_compressed_block_never_panics.
+Print Assumptions C03_decode_blocks_never_panics.
+Print Assumptions C03_reset_never_panics.
+Print Assumptions C03_dictionary_parser_never_panics.
+Print Assumptions C03_sound_decoders_exist.
 Print Assumptions C03_huffman_table_is_complete.
 Print Assumptions C03_huffman_stream_decoding_never_panics.
 Print Assumptions C03_fse_states_never_leave_the_table.
